@@ -62,22 +62,27 @@ impl Localizer for Rec {
     }
 }
 
-struct Fmt<'a>(&'a Rec);
+struct Fmt<'a>(&'a Rec, bool);
 impl MessageFormatter for Fmt<'_> {
     fn localizer(&self) -> &dyn Localizer {
         self.0
     }
     fn format_message<'a>(&self, err: &'a Error) -> Cow<'a, str> {
-        // built-in developer wording, routed through the recording localizer
-        Cow::Owned(serde_saphyr::DefaultMessageFormatter.with_localizer(self.0).format_message(err).into_owned())
+        // built-in developer / user wording, routed through the recording localizer
+        if self.1 {
+            Cow::Owned(serde_saphyr::UserMessageFormatter.with_localizer(self.0).format_message(err).into_owned())
+        } else {
+            Cow::Owned(serde_saphyr::DefaultMessageFormatter.with_localizer(self.0).format_message(err).into_owned())
+        }
     }
 }
 
-/// Render `e` with the recording localizer; returns (text, call log).
-pub fn render_recorded(e: &Error, mode: SnippetMode) -> (String, Vec<Ev>) {
+/// Render `e` with the recording localizer behind the developer (`user == false`) or the
+/// user-facing built-in formatter; returns (text, call log).
+pub fn render_recorded(e: &Error, mode: SnippetMode, user: bool) -> (String, Vec<Ev>) {
     let rec = Rec::default();
     let text = {
-        let f = Fmt(&rec);
+        let f = Fmt(&rec, user);
         let mut ro = RenderOptions::new(&f);
         ro.snippets = mode;
         e.render_with_options(ro)
